@@ -48,7 +48,9 @@ def main():
              "serves_properties": sorted(CLAIMED.keys()),
              "kind_free_text": "explicit TLA+ specifications (spec/*.tla) model-checked with TLC; bound to the code by replaying "
                                "TLC-generated transitions in the Rust harness (harness/, path dependency on /repo) and by TLC trace "
-                               "validation of executions recorded from the real code"},
+                               "validation of executions recorded from the real code; a second harness binary (harness_sh/) runs the C15 drivers "
+                               "over StrongholdStorage; for C15 the inductive invariant of the key-id store design is additionally "
+                               "discharged by Apalache and (thorough tier) proved by TLAPS (spec/proofs/)"},
         ],
         "checks": checks,
         "not_applicable": [{"property_id": p, "reason": NOT_YET} for p in ALL if p not in CLAIMED],
